@@ -264,3 +264,105 @@ Qed.
 
 Corollary code_SubByDisplay s limit : g_SubByDisplay (S (length s)) s limit = to_M (sub_by_display s limit).
 Proof. rewrite code_SubByDisplay_fuel. reflexivity. Qed.
+
+(* ================================================================ Mask *)
+(* the int expressions of Mask that can leave the int64 range (the hand model wraps them): l-start, l-start-end, l-end *)
+Definition mask_no_wrap (str : list Z) (start end_ : Z) : Prop :=
+  let l := rune_count_z str in
+  start <= l -> end_ <= l ->       (* the code computes them only behind `if start > l || end > l { return str }` *)
+  wrap64 (l - start) = l - start /\ wrap64 (l - start - end_) = l - start - end_ /\ wrap64 (l - end_) = l - end_.
+(* the domain of c17_mask_spec (non-negative start, end; a string shorter than 2^63) is inside *)
+Lemma mask_no_wrap_dom str start end_ : Strs.zlen str <= maxint -> 0 <= start -> 0 <= end_ -> mask_no_wrap str start end_.
+Proof.
+  intros Hl Hs He. unfold mask_no_wrap. cbv zeta.
+  pose proof (chunks_length str) as Hc. rewrite rune_count_chunks. unfold Strs.zlen, maxint in *. intros H1 H2.
+  repeat split; apply wrap64_id; unfold two63; lia.
+Qed.
+
+Definition mask_fuel (fuel : nat) (str msk : list Z) (start end_ : Z) : Strs.res :=
+  let l := rune_count_z str in
+  if (l <? start) || (l <? end_) then Strs.Ret str else
+  let ml := wrap64 (wrap64 (l - start) - end_) in
+  if ml <=? 0 then Strs.Ret str else
+  Strs.bind (if rune_count_z msk =? 1 then repeat_str msk ml else Strs.Ret msk) (fun msk' =>
+  if ml =? l then Strs.Ret msk' else
+  let e := wrap64 (l - end_) in
+  match idx_go str start e fuel 0 0 0 0 with
+  | None => Strs.Stuck
+  | Some (si, ei) =>
+      let ei' := if (ei =? 0)%nat then length str else ei in
+      Strs.bind (sl str 0 si) (fun a => Strs.bind (sl str ei' (length str)) (fun b => Strs.Ret (a ++ msk' ++ b)))
+  end).
+Lemma mask_fuel_model str msk start end_ : mask_fuel (S (length str)) str msk start end_ = mask str msk start end_.
+Proof. reflexivity. Qed.
+
+(* strings.Repeat as the translator models it = the hand model's repeat_str (which is stated for count >= 1) *)
+Lemma repeat_std m c : 1 <= c -> std_strings_Repeat m c = to_M (repeat_str m c).
+Proof.
+  intros H. unfold std_strings_Repeat, repeat_str. replace (c =? 0) with false by (symmetry; apply Z.eqb_neq; lia).
+  destruct (c =? 1); [reflexivity|]. replace (c <? 0) with false by (symmetry; apply Z.ltb_ge; lia).
+  change std_maxint with maxint. change std_alloc_limit with alloc_limit. change (Strs.zlen m) with (GoSem.zlen m).
+  destruct (maxint <? GoSem.zlen m * c); [reflexivity|]. destruct m; [reflexivity|].
+  destruct (alloc_limit <? GoSem.zlen (z :: m) * c); reflexivity.
+Qed.
+
+Lemma m_slice_0 s b : m_slice s 0 (Z.of_nat b) = to_M (sl s 0 b).
+Proof. exact (m_slice_z s 0 b (Z.le_refl 0)). Qed.
+
+(* the tail of Mask: from `if ml == l` on, for the mask m that is spliced in *)
+Definition mask_cut (str m : list Z) (si ei : nat) : Strs.res :=
+  let ei' := if (ei =? 0)%nat then length str else ei in
+  Strs.bind (sl str 0 si) (fun a => Strs.bind (sl str ei' (length str)) (fun b => Strs.Ret (a ++ m ++ b))).
+
+Ltac mask_tail fuel str start m :=
+  cbv beta;
+  match goal with |- context [if ?c then Strs.Ret _ else _] => destruct c; [reflexivity|] end;
+  open_loop;
+  match goal with |- bind (while _ ?C ?B ?P _) ?K = to_M (match idx_go _ _ ?e _ _ _ _ _ with _ => _ end) =>
+  assert (HC : forall si ei ct i, C (si, ei, ct, i) = Ret (i <? GoSem.zlen str)) by reflexivity;
+  assert (HP : forall st, P st = Ret st) by (intros [[[? ?] ?] ?]; reflexivity);
+  assert (HB : forall si ei ct i, (i < length str)%nat ->
+    B (Z.of_nat si, Z.of_nat ei, ct, Z.of_nat i) =
+    Ret (Next (Z.of_nat (if ct =? start then i else si),
+               Z.of_nat (if ct =? start then ei else if ct =? e then i else ei), ct + 1,
+               Z.of_nat (i + adv (skipn i str)))))
+   by (intros si ei ct i Hi; unfold B; cbv beta;
+       destruct (ct =? start); [|destruct (ct =? e)];
+       match goal with |- _ = Ret (Next (?a, ?b, ?c, _)) =>
+         rewrite <- (scan_step str i (fun j => Ret (Next (a, b, c, j)))) by exact Hi; reflexivity end);
+  assert (HK : forall si ei ct i, K (Datatypes.inl (Z.of_nat si, Z.of_nat ei, ct, i)) = to_M (mask_cut str m si ei))
+   by (intros si ei ct i; unfold K, mask_cut; cbv beta zeta; rewrite zlen_eq;
+       destruct (Nat.eqb_spec ei 0) as [->|Hne];
+       [ change (Z.of_nat 0 =? 0) with true; cbv iota | replace (Z.of_nat ei =? 0) with false by (symmetry; apply Z.eqb_neq; lia) ];
+       rewrite m_slice_0, m_slice_nat;
+       (destruct (sl str 0 si); [|reflexivity|reflexivity]); cbn [to_M bind Strs.bind];
+       match goal with |- context [sl ?x ?y ?z] => destruct (sl x y z) end; cbn [to_M bind Strs.bind]; try reflexivity;
+       rewrite app_assoc; reflexivity);
+  clearbody C B P K;
+  assert (HL : forall f ct si ei i, bind (while f C B P (Z.of_nat si, Z.of_nat ei, ct, Z.of_nat i)) K =
+     to_M (match idx_go str start e f i ct si ei with None => Strs.Stuck | Some (si', ei') => mask_cut str m si' ei' end))
+   by (let f := fresh "f" in let IH := fresh "IH" in
+       induction f as [|f IH]; intros ct si ei i; [reflexivity|];
+       rewrite while_step, HC; cbn [bind idx_go]; rewrite zlen_eq;
+       destruct (Nat.ltb_spec i (length str)) as [Hi|Hi];
+       [ ltb_true; rewrite HB by exact Hi; cbn [bind]; rewrite HP; cbn [bind]; apply IH
+       | ltb_false; cbn [bind]; apply HK ]);
+  exact (HL fuel 0 0%nat 0%nat 0%nat)
+  end.
+
+Theorem code_Mask_fuel fuel str msk start end_ : mask_no_wrap str start end_ ->
+  g_Mask fuel str msk start end_ = to_M (mask_fuel fuel str msk start end_).
+Proof.
+  intros W. unfold g_Mask, mask_fuel. rewrite !rune_count_std. cbv zeta.
+  destruct ((rune_count_z str <? start) || (rune_count_z str <? end_)) eqn:Eg; [reflexivity|]. zbools.
+  destruct W as (W1 & W2 & W3); [lia|lia|]. rewrite W1, W2, W3.
+  destruct (rune_count_z str - start - end_ <=? 0) eqn:Eml; [reflexivity|]. zbools.
+  destruct (rune_count_z msk =? 1).
+  - rewrite repeat_std by lia. destruct (repeat_str msk (rune_count_z str - start - end_)) as [m| |]; [|reflexivity|reflexivity].
+    cbn [to_M bind Strs.bind]. mask_tail fuel str start m.
+  - cbn [Strs.bind]. mask_tail fuel str start msk.
+Qed.
+
+Corollary code_Mask str msk start end_ : mask_no_wrap str start end_ ->
+  g_Mask (S (length str)) str msk start end_ = to_M (mask str msk start end_).
+Proof. intros H. rewrite code_Mask_fuel by exact H. reflexivity. Qed.
